@@ -869,7 +869,7 @@ func (x *c02Explorer) vectors(seg c02SegOut, depth int) []c02Vector {
 			for _, k := range keeps {
 				add(cuts, k)
 			}
-			if x.thorough && x.rng.Chance(25) {
+			if (x.thorough && x.rng.Chance(25)) || x.rng.Chance(4) {
 				// partial loss: every file keeps a random part of its un-synced data
 				pick := func() string {
 					switch x.rng.Intn(4) {
@@ -1582,7 +1582,7 @@ func TestVerifC02(t *testing.T) {
 	r := vh.NewRng(vh.Seed() + 202)
 	for i := 0; i < n; i++ {
 		jobs <- job{sc: c02GenScenario(r), seed: r.Next()}
-		for k := 0; k < 4; k++ {
+		for k := 0; k < 3; k++ {
 			jobs <- job{syn: c02GenSyn(r)}
 		}
 	}
